@@ -27,13 +27,17 @@ structure Variant where
   signature" is only applied to rules with threshold > 1, so a threshold-1 rule without approvals is
   reported "not mergeable" although an authorized recorder's entry verifies. -/
   f27_mergeableNeedsThreshold2 : Bool := true
+  /-- F63: the "already verified using this verifier" shortcut for the later paths of a commit also
+  fires for the exhaustive verifier, which is part of every path's verifiers once a global rule
+  exists: after an unprotected path, the protected paths of the same commit are not checked. -/
+  f63_trustExhaustive : Bool := true
   deriving Repr, DecidableEq, Inhabited
 
 def Variant.current : Variant := {}
 def Variant.good : Variant :=
   { f1_exhaustiveSatisfies := false, f2_propagationSkipped := false, f3_fixNotVerified := false,
     f4_inRangeNotSelfVerified := false, f7_ghPredicateNotValidated := false,
-    f27_mergeableNeedsThreshold2 := false }
+    f27_mergeableNeedsThreshold2 := false, f63_trustExhaustive := false }
 
 inductive VE where
   | verif            -- ErrVerificationFailed / ErrVerifierConditionsUnmet
@@ -236,7 +240,7 @@ def verifyObject (W : World) (v : Variant) (P : Policy) (path : String) (g : Opt
   | none => .error .other
   | some vs =>
     if vs.isEmpty then .ok ("", false) else
-    if o.trusted != "" && vs.any (·.name == o.trusted) then .ok (o.trusted, false) else
+    if o.trusted != "" && vs.any (fun vn => vn.name == o.trusted && (v.f63_trustExhaustive || !vn.v.exhaustive)) then .ok (o.trusted, false) else
     match usingVerifiers v P vs g ap.auth ap.approvers o.mergeable with
     | .error e => .error e
     | .ok r =>
